@@ -68,7 +68,7 @@ def typeMappingsOf : LangCfg → List (Str × Str)
 /-- **the name the declaration of an item is emitted under**: `id.renamed` behind the configured
 prefix, in every back end and for every kind of item — except Go enums (go.rs `write_enum`:
 `acr(id.original)`, pinned by a snapshot test; the class `Known_def_original`).  Kotlin / Scala / Go
-type aliases are defined under `id.renamed` since the `fix:` commit b182a80. -/
+type aliases are defined under `id.renamed` since the `fix:` commit 0c924cd. -/
 def defName : LangCfg → RustItem → Str
   | .typescript _, it => (itemId it).renamed                 -- typescript.rs:162,198,223
   | .kotlin c, it => c.pfx ++ (itemId it).renamed            -- kotlin.rs:125 (alias, value class), 192, 250
@@ -129,7 +129,7 @@ def tgt (scope : List Str) (id : Str) : Target := if scope.contains id then .par
 
 mutual
   /-- the references inside one type expression *as written in the source*: a `simple` leaf and
-  (since the `fix:` commit 821da1d) the head of a generic application are printed from the name
+  (since the `fix:` commit 944b749) the head of a generic application are printed from the name
   `reconcile` left there.  `scope`: the Rust generic parameters in scope; `gens`: the
   `generic_types` the back end passes to `format_type`. -/
   def typeRefs (lc : LangCfg) (r : Renames) (scope gens : List Str) : RustType → List Ref
@@ -147,7 +147,7 @@ mutual
 end
 
 /-- the super type every case of the enum names (`KtCase.parent`, `ScCase.parent`; `id.renamed`
-since the `fix:` commit 03e02a1); the other back ends print no parent -/
+since the `fix:` commit 3d3e1e7); the other back ends print no parent -/
 def parentRefs (lc : LangCfg) (e : RustEnum) : List Ref :=
   match lc, e.keys with
   | .kotlin c, some _ => [⟨c.pfx ++ e.id.renamed, .parent e.id.original, false⟩]    -- kotlin.rs:405-423
@@ -156,7 +156,7 @@ def parentRefs (lc : LangCfg) (e : RustEnum) : List Ref :=
   | _, _ => []
 
 /-- the reference a struct variant's content makes to its helper struct (Kotlin / Scala:
-`<renamed><Variant>Inner` since the `fix:` commit 03e02a1) -/
+`<renamed><Variant>Inner` since the `fix:` commit 3d3e1e7) -/
 def innerRefs (lc : LangCfg) (e : RustEnum) (v : Str) : List Ref :=
   match lc with
   | .typescript _ => []
@@ -202,8 +202,8 @@ def allDefs (lc : LangCfg) (P : ParsedData) : List Str :=
 
 /-! ## the known class of inconsistency, per reference
 
-The classes `generic-head-not-renamed` (821da1d), `parent-class-original-name` and
-`inner-struct-original-name` (03e02a1) are repaired, and `definition-under-original-name` (b182a80)
+The classes `generic-head-not-renamed` (944b749), `parent-class-original-name` and
+`inner-struct-original-name` (3d3e1e7) are repaired, and `definition-under-original-name` (0c924cd)
 has shrunk to Go enums. -/
 
 /-- the back end defines this kind of item under `id.original` (every other definition uses
